@@ -4,6 +4,7 @@ package main
 // probed on a half-integer grid.  Tree vocabulary mirrors spec/solids/SolidAlgebra.tla.
 
 import (
+	"fmt"
 	"math"
 	"math/rand"
 
@@ -43,7 +44,18 @@ func buildSolid(t *tree) model3d.Solid {
 		case "join":
 			return model3d.JoinedSolid(args)
 		case "joinopt":
-			return model3d.JoinedSolid(args).Optimize()
+			// Optimize "creates a version of the solid": the operand slice it is called on stays as it was
+			before := make([]string, len(args))
+			for i, a := range args {
+				before[i] = fmt.Sprintf("%T:%p", a, a)
+			}
+			res := model3d.JoinedSolid(args).Optimize()
+			for i, a := range args {
+				if fmt.Sprintf("%T:%p", a, a) != before[i] {
+					panic("JoinedSolid.Optimize reordered the operand slice it was called on")
+				}
+			}
+			return res
 		case "mux":
 			return model3d.NewSolidMux(args)
 		case "isect":
